@@ -43,9 +43,14 @@ fn garbage(len: usize, salt: u64) -> Vec<u8> {
 pub fn damage_content(ctx: &Ctx, addr: AddrRef, dmg: &CDamage) {
     let p = ctx.content_path(addr);
     let cur = std::fs::read(&p).ok();
+    // bit rot changes the bytes of the very file (same inode: every hard link of it sees the
+    // change); a foreign writer replaces the file
+    let in_place = matches!(dmg, CDamage::FlipBit(_) | CDamage::Truncate(_) | CDamage::Extend(_) | CDamage::Empty | CDamage::Garbage { .. })
+        && std::fs::symlink_metadata(&p).map(|m| m.file_type().is_file()).unwrap_or(false);
     let write = |b: &[u8]| {
-        // replace the inode content in place (like a foreign writer / bit rot would)
-        let _ = std::fs::remove_file(&p);
+        if !in_place {
+            let _ = std::fs::remove_file(&p);
+        }
         if let Some(d) = p.parent() {
             std::fs::create_dir_all(d).unwrap();
         }
